@@ -46,6 +46,8 @@ class ObjKernels:
             "ptr_mut": targets.find_one(mf, r"^(implementations::)?ptr_mut$"),
             "is": targets.find_one(mf, r"primitive\.rs.*>::runtime_addr_check$"),
             "build": targets.find_one(mf, r"object\.rs.*>::build$"),
+            "set_name": targets.find_one(mf, r"object\.rs.*>::name$"),
+            "set_variables": targets.find_one(mf, r"object\.rs.*>::object_variables$", lambda f: f.nargs == 2),
         }
         self.fn["clone"] = self.ex.resolver("<variables::primitive::Primitive as Clone>::clone", 1)
         if self.fn["clone"] is None:
@@ -193,6 +195,70 @@ def check_all(ok_, profile, qs, timeout_ms, seed):
             else:
                 qs.obligations += 1
                 qs.discharged += 1
+    # ---- two constructor calls in a row through the long-lived builder: name(..).object_variables(frame).build()
+    cells, vs, pc = {}, {}, []
+    maps = []
+    for tag in ("k1", "k2"):
+        ents = []
+        for nm in FIELDS:
+            val, fl = z3.BitVec("%s_%s" % (tag, nm), 32), z3.BitVec("fl_%s_%s" % (tag, nm), 8)
+            pc.append(z3.Or(fl == 0, fl == 1))
+            ents.append((nm, ok_.pair(cells, "%s.%s" % (tag, nm), val, fl)))
+            vs[(tag, nm)] = (("gc", "%s.%s" % (tag, nm)), val, fl)
+        maps.append(Adt("VariableMapping", None, [H.hashmap(ents)]))
+    cells[("builder",)] = Adt("ObjectBuilder", None, [Adt("Option", "None", []), Adt("Option", "None", []), H.hashmap([])])
+    states = [(cells, pc, [])]
+    for step, mp in enumerate(maps):
+        nxt = []
+        for c0, p0, objs in states:
+            for o_a in ex.run(ok_.fn["set_name"], [Ref(("builder",)), strmodels.sstr([Sc("char", z3.BitVecVal(ord("C"), 32))])], cells=dict(c0), pc=list(p0)):
+                if o_a.kind == "panic":
+                    continue
+                for o_b in ex.run(ok_.fn["set_variables"], [Ref(("builder",)), mp], cells=dict(o_a.cells), pc=list(o_a.pc)):
+                    if o_b.kind == "panic":
+                        continue
+                    for o_c in ex.run(ok_.fn["build"], [Ref(("builder",))], cells=dict(o_b.cells), pc=list(o_b.pc)):
+                        pcz = z3.And(*o_c.pc) if o_c.pc else z3.BoolVal(True)
+                        if o_c.kind == "panic":
+                            fail("construct", "step%d" % step, pcz, "panic", "Rust panic `%s`" % o_c.value.msg, vs)
+                            continue
+                        nxt.append((o_c.cells, list(o_c.pc), objs + [_obj_shape(Adt("Primitive", "Object", [o_c.value]))]))
+        states = nxt
+    if not states:
+        raise Inconclusive("vacuity: the construction sequence has no surviving path")
+    for si, (c_, p_, objs) in enumerate(states):
+        pcz = z3.And(*p_) if p_ else z3.BoolVal(True)
+        want = [{nm: ("gc", "%s.%s" % (tag, nm)) for nm in FIELDS} for tag in ("k1", "k2")]
+        if [o_[1] for o_ in objs] != want or objs[0][0] == objs[1][0]:
+            fail("construct", "s%d" % si, pcz, "instances-share-state", "two constructor calls in a row do not yield two objects over their own constructor variables (fields or identity shared)", vs)
+        else:
+            qs.obligations += 1
+            qs.discharged += 1
+    # ---- a list-valued field re-pointed at ANOTHER list (possibly of equal contents): the field must then hold that list
+    cells, vs, pc = {}, {}, []
+    e1, e2 = z3.BitVec("le1", 32), z3.BitVec("le2", 32)
+    cells[("gc", "L1")] = gcmodels.gccell(Adt("Vec", None, [prim("Int", Sc("i32", e1))]))
+    cells[("gc", "L2")] = gcmodels.gccell(Adt("Vec", None, [prim("Int", Sc("i32", e2))]))
+    vec = lambda key: Adt("Primitive", "Vector", [Adt("GcVector", None, [Adt("Gc", None, [Ref(("gc", key))])])])
+    cells[("gc", "fld")] = gcmodels.gccell(Adt("TupleWithGcOpt", None, [vec("L1"), Adt("VariableFlags", None, [Sc("u8", z3.BitVecVal(0, 8))])]))
+    ptr = Adt("Primitive", "HeapPrimitive", [Adt("HeapPrimitive", "Lookup", [Adt("PrimitiveFlagsPair", None, [Adt("Gc", None, [Ref(("gc", "fld"))])])])])
+    cells[("ctx",)] = Adt("Ctx", None, [Adt("Vec", None, [ptr, vec("L2")])] + [Opaque("ctx-field", i) for i in range(1, 6)])
+    cells[("iargs",)] = Adt("[]", None, [])
+    for pi, o in enumerate(ex.run(ok_.fn["ptr_mut"], [Ref(("ctx",)), Ref(("iargs",))], cells=cells, pc=pc)):
+        pcz = z3.And(*o.pc) if o.pc else z3.BoolVal(True)
+        if o.kind == "panic":
+            fail("field-write-list", "p%d" % pi, pcz, "panic", "Rust panic `%s`" % o.value.msg, vs)
+            continue
+        if o.value.variant != "Ok":
+            fail("field-write-list", "p%d" % pi, pcz, "spurious-failure", "writing a list into a field fails", vs)
+            continue
+        held = o.cells[("gc", "fld")].fields[0].fields[0]
+        okh = isinstance(held, Adt) and held.variant == "Vector" and held.fields[0].fields[0].fields[0].cell == ("gc", "L2")
+        if not okh:
+            fail("field-write-list", "p%d" % pi, pcz, "keeps-old-list", "after `obj.f = other_list` the field still refers to the old list (aliasing with `other_list` is lost)", vs)
+        else:
+            qs.obligations += 1
+            qs.discharged += 1
     # ---- lookup and write through the pointer
     for field in FIELDS + ("zz",):
         cells, vs, pc = {}, {}, []
